@@ -10,7 +10,9 @@ subprocess.run("git -C /repo worktree remove --force %s" % W, shell=True, captur
 subprocess.run("git -C /repo worktree add -q --detach %s HEAD" % W, shell=True, check=True)
 try:
     subprocess.run("git -C %s apply %s/patch.diff" % (W, d), shell=True, check=True)
-    p = subprocess.run("./check %s --no-shrink" % pid, shell=True, cwd=V, env=dict(os.environ, PGV_REPO=W),
+    # SEED_CHECK=<ID>: the change is caught by another property's check (recorded as "caught_by"; sensitivity.sh honours it)
+    chk = os.environ.get("SEED_CHECK") or json.load(open(os.path.join(d, "meta.json"))).get("caught_by") or pid
+    p = subprocess.run("./check %s --no-shrink" % chk, shell=True, cwd=V, env=dict(os.environ, PGV_REPO=W),
                        capture_output=True, text=True)
 finally:
     subprocess.run("git -C /repo worktree remove --force %s" % W, shell=True, capture_output=True)
@@ -20,6 +22,8 @@ m = json.load(open(os.path.join(d, "meta.json")))
 first = m.get("first_result") or m["check_result"]
 m["first_result"] = first
 m["check_result"] = res
+if chk != pid:
+    m["caught_by"] = chk
 m["check_signatures"] = sigs[:4]
 m["history"] = "first run: %s. %s Now: %s." % (first, text, res)
 json.dump(m, open(os.path.join(d, "meta.json"), "w"), indent=1)
